@@ -150,6 +150,7 @@ Print Assumptions C20_split_example.
     one of its options *)
 Theorem C20_schema_loader_agree :
   forall r, In r (all_rows schema_tbl loader_tbl) -> guard_F1 fixed_F1a fixed_F1b r = false ->
+            guard_F6_row schema_tbl loader_tbl r = false ->
             row_agrees schema_tbl loader_tbl r = true.
 Proof. exact schema_loader_agree. Qed.
 Print Assumptions C20_schema_loader_agree.
